@@ -269,7 +269,6 @@ def buffer_fill(cfg: CFG, buf: str, at: int):
 # functions in which a path legitimately ignores `constant` / `out` (one named symbol + reason each)
 PATH_DEAD_EXEMPT = {
     ("mygrad.indexing_routines.funcs.where", "constant"): "the one-argument form returns np.where(condition): a tuple of plain index arrays, no tensor is produced",
-    ("mygrad.math.misc.funcs._multi_matmul", "constant"): "recursion base case i == j hands back the operand itself; no operation is performed",
 }
 
 
@@ -284,6 +283,8 @@ def path_dead_option(run, rule: str, param: str, breaks: str) -> int:
         params = [a.arg for a in fn.args.posonlyargs + fn.args.args + fn.args.kwonlyargs]
         if param not in params:
             continue
+        if fi.name.startswith("_") and not (fi.name.startswith("__") and fi.name.endswith("__")):
+            continue  # private helpers (validators, recursion workers) do not define what the option means; their public callers are judged
         cfg = CFG(fn)
         uses = {nid for nid, st in cfg.stmt.items() if st is not None and not isinstance(st, (ast.FunctionDef, ast.AsyncFunctionDef, ast.ClassDef))
                 and any(isinstance(x, ast.Name) and x.id == param and isinstance(x.ctx, ast.Load) for x in ast.walk(st))}
@@ -299,3 +300,56 @@ def path_dead_option(run, rule: str, param: str, breaks: str) -> int:
                (f"every ENTRY->EXIT path reads `{param}`" if not dead else f"exempt: {ex}") if (not dead or ex) else
                f"a path returns a result without reading `{param}`: {breaks}", path=path if dead and not ex else None)
     return n
+
+
+def default_assume(fn_node: ast.AST, keep=()) -> Dict[str, object]:
+    """Assumptions that pin every parameter *not* in `keep` to its declared default (None / True / False / a number): rules that state what a
+    function does for the parameters they name are evaluated on the paths a caller who does not use the other, optional parameters takes --
+    an added keyword whose default reproduces today's behaviour is then invisible to the rule."""
+    out: Dict[str, object] = {}
+    a = fn_node.args
+    pos = a.posonlyargs + a.args
+    pairs = list(zip(pos[len(pos) - len(a.defaults):], a.defaults)) + [(p, d) for p, d in zip(a.kwonlyargs, a.kw_defaults) if d is not None]
+    for p, d in pairs:
+        if p.arg in keep or not isinstance(d, ast.Constant):
+            continue
+        v = d.value
+        nm = p.arg
+        if v is None:
+            out[f"{nm} is None"] = True
+            out[f"{nm} is not None"] = False
+            out[nm] = False
+        elif isinstance(v, bool):
+            out[nm] = v
+            out[f"{nm} is True"] = v is True
+            out[f"{nm} is False"] = v is False
+            out[f"{nm} is not True"] = v is not True
+            out[f"{nm} is not False"] = v is not False
+            out[f"{nm} is None"] = False
+            out[f"{nm} is not None"] = True
+        elif isinstance(v, (int, float)):
+            out[nm] = v
+    return out
+
+
+def projection_aliases(fn_node: ast.AST) -> Dict[str, str]:
+    """locals bound exactly once to a plain attribute chain / name (`creator = t.creator`): name -> text of what it stands for"""
+    counts: Dict[str, int] = {}
+    vals: Dict[str, ast.expr] = {}
+    for n in own_nodes(fn_node):
+        if isinstance(n, ast.Name) and isinstance(n.ctx, (ast.Store, ast.Del)):
+            counts[n.id] = counts.get(n.id, 0) + 1
+        if isinstance(n, ast.Assign) and len(n.targets) == 1 and isinstance(n.targets[0], ast.Name) and dotted(n.value) is not None:
+            vals[n.targets[0].id] = n.value
+    params = {a.arg for a in fn_node.args.posonlyargs + fn_node.args.args + fn_node.args.kwonlyargs} if hasattr(fn_node, "args") else set()
+    return {k: norm(v) for k, v in vals.items() if counts.get(k) == 1 and k not in params}
+
+
+def sem(e: ast.AST, aliases: Dict[str, str]) -> str:
+    """text of `e` with single-definition projection locals replaced by what they stand for"""
+    import re
+    t = norm(e)
+    for _ in range(3):
+        for k, v in aliases.items():
+            t = re.sub(rf"(?<![\w.]){re.escape(k)}\b", v, t)
+    return t
